@@ -497,6 +497,76 @@ def _rebind_after_normalize(w, pre):
 
 
 # ---------------------------------------------------------------------------
+CFG_ATTR = '''CONSTANTS
+  MaxLen = %d
+  GuardFirst = FALSE
+INIT Init
+NEXT Next
+CHECK_DEADLOCK FALSE
+INVARIANT NormalizeIsMerged
+INVARIANT NormalizedEverywhere
+INVARIANT Emit
+'''
+
+
+def replay_attr(beh):
+    """DomAttr.tla -> Node.normalize on a real tree whose elements hold document fragments as attribute values.
+    The tree is built bottom-up with append only (no child list is read before normalize is called)."""
+    from plasTeX.DOM import Document, Node
+    doc = Document()
+    k = [0]
+
+    def build(n):
+        if n['k'] == 't':
+            k[0] += 1
+            return doc.createTextNode('t%d ' % k[0])
+        e = doc.createElement('el')
+        for c in (n['kids'] or []):
+            e.append(build(c))
+        if n['hasattr']:
+            f = doc.createDocumentFragment()
+            for c in (n['attr'] or []):
+                f.append(build(c))
+            e.attributes['arg'] = f
+        return e
+
+    def shape(node):
+        if node.nodeType == Node.TEXT_NODE:
+            return {'k': 't'}
+        kids = [shape(c) for c in node]
+        a = node.attributes.get('arg') if getattr(node, 'attributes', None) else None
+        return {'k': 'e', 'kids': kids, 'hasattr': a is not None, 'attr': [shape(c) for c in a] if a is not None else []}
+
+    def words(node, out):
+        if node.nodeType == Node.TEXT_NODE:
+            out.extend(str(node).split())
+            return out
+        a = node.attributes.get('arg') if getattr(node, 'attributes', None) else None
+        if a is not None:
+            for c in a:
+                words(c, out)
+        for c in node:
+            words(c, out)
+        return out
+    root = build(beh['root'])
+    before = words(root, [])
+    try:
+        root.normalize()
+    except Exception as ex:
+        return 'attr:raise', 'normalize raised %s: %s on %s' % (type(ex).__name__, ex, beh['root'])
+
+    def canon(n):
+        if n['k'] == 't':
+            return {'k': 't'}
+        return {'k': 'e', 'kids': [canon(c) for c in (n['kids'] or [])], 'hasattr': bool(n['hasattr']), 'attr': [canon(c) for c in (n['attr'] or [])]}
+    got, want = shape(root), canon(beh['after'])
+    if got != want:
+        return 'attr:normalize', 'normalize() leaves %s, specification %s (tree %s)' % (got, want, canon(beh['root']))
+    if words(root, []) != before:
+        return 'attr:text', 'normalize() changed the text: %s, before %s' % (words(root, []), before)
+    return 'ok', ''
+
+
 def run(chk):
     tier, seed = chk.tier, chk.seed
     chk.rule = ('behaviours = operation sequences printed by TLC from Dom.tla (one per distinct reachable state; thorough: plus '
@@ -556,6 +626,18 @@ def run(chk):
             if not ok:
                 chk.violation(signature(rec, step, msg), msg, {'ops': [fmt(e) for e in rec['h']], 'behaviour': rec})
     chk.exhaustive = True
+    # normalize through attribute values (DomAttr.tla)
+    ra = tlc.run('DomAttr', cfg_text=CFG_ATTR % (2 if tier == 'quick' else 3), timeout=3400, heap='8g')
+    chk.add_tlc(ra, 'normalize-attributes(MaxLen=%d)' % (2 if tier == 'quick' else 3))
+    if not ra.ok:
+        chk.violation('design:attr:' + ','.join(ra.violated or ['error']), 'DomAttr.tla: %s\n%s' % (ra.violated, ra.trace_text[:2000]))
+    if not ra.beh:
+        raise MachineryError('C06: no attribute behaviours emitted')
+    for beh, (kind, msg) in zip(ra.beh, pmap(replay_attr, ra.beh, chunksize=100)):
+        chk.case(['attr', beh['root']], bool(beh['root']['hasattr'] or any(c.get('hasattr') for c in (beh['root']['kids'] or []))))
+        chk.traces += 1
+        if kind != 'ok':
+            chk.violation('replay:' + kind, msg, beh)
     chk.extra['bounds'] = {'pool': {'elements': elems, 'texts': texts, 'fragments': frags},
                            'MaxOps_design_and_states': maxops, 'every_operation_result_pair_upto': 3 if tier == 'thorough' else 0}
 
